@@ -28,6 +28,7 @@ type EngOpts struct {
 	PWipe, PRevert      int    // percent of steps that delete plz-out / go back to an earlier tree
 	PNoop               int    // percent of steps that rebuild the unchanged tree
 	DirHeavy            bool   // prefer directory outputs and renames inside them
+	Rebuild             bool   // every successful build is followed at once by a second build of the unchanged tree
 	Threads             int
 	cleanMemo           map[string]EngStep // clean reference results by (tree, request): a tree seen again is not rebuilt
 }
@@ -275,7 +276,15 @@ func EngRunHistory(r *lib.Rng, base string, o EngOpts) []EngStep {
 				req = sub
 			}
 		}
-		steps = append(steps, EngBuild(repo, base, spec, order, req, i, ed, wipe, o))
+		st := EngBuild(repo, base, spec, order, req, i, ed, wipe, o)
+		steps = append(steps, st)
+		if o.Rebuild && st.Exit == 0 {
+			o2 := o
+			o2.CleanRef = false
+			st2 := EngBuild(repo, base, spec, order, req, i, Edit{"rebuild", "unchanged tree"}, false, o2)
+			st2.CleanExit, st2.CleanExec, st2.Clean, st2.CleanStr = st.CleanExit, st.CleanExec, st.Clean, st.CleanStr
+			steps = append(steps, st2)
+		}
 	}
 	return steps
 }
